@@ -339,6 +339,77 @@ def header_histories(h, m, schema, workdir):
     return None
 
 
+WS_KINDS = ["INTEGER", "REAL", "STRING", "BOOLEAN", "LOGICAL", "BINARY", "ENUM", "DEF_REAL", "DEF_INT", "ENTITY", "SELECT_E", "SELECT_T",
+            "SELECT_M", "AGG_INT", "AGG_REAL", "AGG_ENT", "AGG_ENTS", "AGG_SEL", "AGG_SELE", "AGG_AGG"]
+
+
+def ws_bytes_correspondence(ctx, b, n_cases):
+    """the byte-level working-session layer (lean/StepModel/WsBytes.lean on top of the C01/C03 reader; driver m_c16ws) against the code:
+    a working-session file with every state letter (deleted entries included) is read by both; compared: the instances the session
+    holds (ids, types, states), the counters, and the DATA section a save of that session writes (bytes)."""
+    from vlib import p21_gen_rw as W
+    ws_exe = ctx.model_exe("m_c16ws")
+    if not os.path.exists(ws_exe):
+        return "m_c16ws not built"
+    s = G.gen_schema(ctx.rng, "wb", n_entities=5, kinds=WS_KINDS, cover_all_kinds=True, p_optional=0.4, with_complex=True)
+    wd = os.path.join(ctx.work, "wb")
+    exe, _ = build_schema(b, s, wd, False)
+    dl = W.dict_lines(s)
+    m = Harness(ws_exe, os.environ.copy())
+    h = Harness(exe, b.env())
+    first, n_ok, n_unmodelled = None, 0, 0
+    try:
+        for l in dl:
+            if m.cmd(l) != "ok":
+                return f"m_c16ws rejected dictionary line {l!r}"
+        for ci in range(n_cases):
+            pop = G.gen_population(ctx.rng, s, ctx.rng.randint(1, 6), p_null_optional=0.3)
+            states = assign_states(ctx.rng, pop, ["any", "nodelete", "uniform"][ci % 3])
+            strict = ci % 2
+            text = G.render(s.name, pop, working=[LETTER[x] for x in states])
+            path = os.path.join(wd, f"wb{ci}.wsf")
+            open(path, "w").write(text)
+            h.cmd(f"reset {strict}")
+            rh = kv(h.cmd(f"readwork {path}"))
+            dh = [(a, b_, c) for a, b_, c in parse_dump(h.cmd("dump"))]
+            outp = os.path.join(wd, f"wb{ci}_out.wsf")
+            h.cmd(f"writework {outp} 0")
+            mr = m.cmd(f"readws {strict} " + (W.data_bytes(text).encode("latin-1").hex() or "-"))
+            ctx.count(1, key=("wsbytes", ci))
+            if mr.startswith("X unmodelled"):
+                n_unmodelled += 1
+                ctx.hist("byte-level working-session layer", "unmodelled by the C01 reader: " + mr[13:40])
+                continue
+            if not mr.startswith("R "):
+                first = first or f"history {ci}: model reply {mr[:200]!r}"
+                continue
+            head, _, body = mr.partition("|")
+            mk = kv(head)
+            dm = [tuple(w.split("/")[:3]) for w in body.split()]
+            diff = None
+            if [(str(a), b_, c) for a, b_, c in dh] != [(a, b_, c) for a, b_, c in dm]:
+                diff = f"session impl {dh} model {dm}"
+            elif int(mk["created"]) != int(rh["n"]):
+                diff = f"instances created impl {rh['n']} model {mk['created']}"
+            else:
+                wtext = open(outp, encoding="latin-1").read()
+                a_ = wtext.index("DATA;\n") + 6
+                data = wtext[a_:wtext.index("ENDSEC;", a_)]
+                mw = m.cmd("writews")
+                mbytes = bytes.fromhex(mw[2:]).decode("latin-1") if mw.startswith("W ") and mw[2:] != "-" else ""
+                if data != mbytes:
+                    diff = f"DATA section written by a save: impl {data[:300]!r} model {mbytes[:300]!r}"
+            if diff:
+                first = first or f"history {ci} (strict={strict}) file {text[-600:]!r}: {diff}"
+            else:
+                n_ok += 1
+                ctx.hist("byte-level working-session layer", "agrees")
+    finally:
+        h.close(); m.close()
+    ctx.cov["correspondence"]["ws_bytes"] = {"histories": n_cases, "agree": n_ok, "unmodelled": n_unmodelled}
+    return first
+
+
 K_MANY_DELETED = "ws:more-than-maxErrorCount-deleted-entries"
 K_LONG_COMMENT = "ws:comment-above-8192"
 
@@ -386,7 +457,7 @@ def run(ctx):
     ]
     from checks.c15 import baseline_generated, GENERATED_FILES
     baseline_generated(GENERATED_FILES)
-    proof_ok = ctx.lean("StepModel.Props.C16", exes=["m_c16"], extractors=EXTRACTORS)
+    proof_ok = ctx.lean("StepModel.Props.C16", exes=["m_c16", "m_c16ws"], extractors=EXTRACTORS)
     if not proof_ok:
         from vlib import lean as L
         L.lake_build(["m_c16"])
@@ -543,6 +614,10 @@ def run(ctx):
         ctx.cov["correspondence"][s.name] = {"histories": n, "disagreements": len(corr), "wall_s": round(time.time() - t, 1)}
         if stop:
             break
+    if not stop:
+        e = ws_bytes_correspondence(ctx, b, 40 if quick else 300)
+        if e:
+            ctx.broken.append(("correspondence byte-level working-session layer (WsBytes) vs ReadWorkingFile / WriteWorkingFile", e))
     ctx.sample({"schema": schemas[0].express()[:1000]})
     ctx.cov["rule"] = ("per generated schema: conforming populations, two thirds of them with ~35% of the instances missing one "
                        "required value; state assignments complete/incomplete/new/deleted (random, no-deletion, uniform; deleted "
